@@ -19,6 +19,7 @@ PROPS = {
     'C02': {
         'level': 'proof',
         'kani': True,
+        'native': True,
         'explanation': 'Every handler of RunState (add and br jmp jsr ld ldi ldr lea not st sti str stack push_val pop_val trap) and the '
                        'dispatch in execute are proved equal to step_spec — the ISA step oracle over the whole machine state (8 registers, '
                        '65536 memory words, PC, CC, orig, PSR), so the frame (nothing else changes) is part of every postcondition. '
